@@ -4,6 +4,7 @@ import Rivia.Model.Core
 import Rivia.Model.File
 import Rivia.Model.Chmod
 import Rivia.Model.User
+import Rivia.Model.Defer
 import Rivia.Spec.Lists
 import Rivia.Spec.Cursor
 import Rivia.Spec.ChmodGrammar
@@ -96,6 +97,11 @@ def coreFn (fn : String) (args : List String) : Option String :=
     let len ← natOfArg l
     pure (line3 (showOutcome showNat (Core.single (items len))) (showOutcome showNat (Spec.singleSpec (items len))) "-")
   | "it_some", [l] => do let len ← natOfArg l; pure (line3 (okBool (Core.hasSome (items len))) (okBool (decide (len > 0))) "-")
+  | "defer", [a] => do
+    let s ← strOfArg a
+    match Rivia.Defer.parseDefer (String.ofList s) with
+    | some prog => pure (line3 (Rivia.Defer.showDOut (Rivia.Defer.runDefer prog)) "-" "-")
+    | none => none
   | "str_size", [a] => do let s ← strOfArg a; pure (line3 ("ok " ++ showNat (Core.size s)) ("ok " ++ showNat s.length) "-")
   | "str_to_bool", [a] => do let s ← strOfArg a; pure (line3 (okBool (Core.toBool s)) (okBool (Spec.toBoolSpec s)) "-")
   | "str_trim_suffix", [a, b] => do
